@@ -129,7 +129,7 @@ class Events:
         return hashlib.sha256(json.dumps(self.log, sort_keys=True, default=str).encode()).hexdigest()
 
 
-FAULTABLE = {"open_out", "write", "flush", "close", "stdout_write", "stdout_flush", "remove", "rename", "replace"}
+FAULTABLE = {"open_data", "open_out", "write", "flush", "close", "stdout_write", "stdout_flush", "remove", "rename", "replace"}
 
 
 # =============================================================================
@@ -415,6 +415,11 @@ class SimFS:
                closefd=True, opener=None):
         rel = self.rel(file)
         if rel is None:
+            if self.active and self.ev.kfaults and isinstance(file, str) and file.startswith(MODULES) and not file.endswith(".py"):
+                # a data file shipped with the repository (PTE tables, trace string files, registry ...)
+                idx, f = self.ev.point("open_data", os.path.basename(file), None)
+                if f is not None and f["kind"] in ("error", "short"):
+                    raise _oserror(f.get("errno", "EIO"), file)
             return _o.open(file, mode, buffering, encoding, errors, newline, closefd, opener)
         path = os.path.join(self.root, rel)
         if any(c in mode for c in "wax+"):
@@ -771,6 +776,9 @@ class PluginHost(importlib.abc.MetaPathFinder, importlib.abc.Loader):
                 raise ValueError("fake failure in %s.%s" % (name, func))
             if b == "keyerror":
                 raise KeyError("fake-missing-key")
+            if b == "raise_noargs":
+                # exceptions that carry no arguments: bare assert / NotImplementedError / KeyError()
+                raise [AssertionError, NotImplementedError, KeyError][len(repr(args)) % 3]()
             if b == "importerror":
                 raise ImportError("No module named 'lazy_optional_dep'")
             if b == "modulenotfound":
@@ -951,6 +959,11 @@ class World:
 
     def put(self, rel, data):
         write_file(self.path(rel), data)
+
+    def symlink(self, rel, target_rel):
+        """create rel as a symbolic link to another path of the simulated tree (relative link)"""
+        _o.makedirs(os.path.dirname(self.path(rel)), exist_ok=True)
+        _o.symlink(os.path.relpath(self.path(target_rel), os.path.dirname(self.path(rel))), self.path(rel))
 
     def mkdir(self, rel):
         _o.makedirs(self.path(rel), exist_ok=True)
